@@ -2,7 +2,7 @@
 # usage: tools/trymutant2.sh <patch.diff> <tier> <id> [<id>...]
 # Like trymutant.sh but never touches /repo: applies the patch in a scratch worktree of /repo HEAD and
 # points the harness at it (VERIF_REPO), with its own scratch output directory.
-patch=$1; tier=$2; shift 2
+patch=$(readlink -f "$1"); tier=$2; shift 2
 wt=$(mktemp -d /tmp/mut.XXXXXX); sc=$(mktemp -d /tmp/mutout.XXXXXX)
 git -C /repo worktree add -q --detach $wt HEAD || exit 9
 trap 'git -C /repo worktree remove --force '$wt' 2>/dev/null; rm -rf '$wt' '$sc EXIT
